@@ -119,12 +119,17 @@ def error_types(view):
 
 
 class Finding:
-    def __init__(self, rule, body, what, at, detail=""):
+    """`undecided=True`: the rule did not find the construct it reasons about (the code was restructured into a shape
+    its recogniser does not know).  That is no verdict either way: it is reported as UNDECIDED and recorded in the
+    evidence, but it is not a violation - a violation is only ever a recognised construct that breaks the rule."""
+
+    def __init__(self, rule, body, what, at, detail="", undecided=False):
         self.rule = rule
         self.body = body
         self.what = what
         self.at = at
         self.detail = detail
+        self.undecided = undecided
 
     def key(self):
         return "%s | %s | %s" % (self.rule, self.body, self.what)
